@@ -262,67 +262,58 @@ def _under_branch(root, target):
 
 
 def resolve_total(R, ctx):
-    """Typestate: after Token::replace_referenced_tokens no Position::LineNumberReference remains."""
+    """Typestate: after Token::replace_referenced_tokens no Position::LineNumberReference remains (finite-domain evaluation)."""
+    import itertools
+    from .. import peval
+    from ..peval import Enum, Struct, UNKNOWN
     rid = "C12.resolve"
     lib = ctx.lib
-    R.rule(rid, "Token::replace_referenced_tokens (with the helpers it calls in nodes::token) turns EVERY `Position::LineNumberReference` of the token and of "
-                "its trivia into an owned position: each test for that variant is unguarded (no match guard, no `&&`), its branch builds the owned "
-                "`Position::LineNumber` unconditionally, and both Token.position and Trivia.position are assigned; a reference left behind is read "
-                "against another file's text by the generator (panic / wrong content)")
-    entry = lib.fn(TOKEN_T + "::replace_referenced_tokens")
-    if not R.require(rid, "anchor", entry is not None, "", "Token::replace_referenced_tokens not found"):
+    R.rule(rid, "Token::replace_referenced_tokens, evaluated from its typed tree on a token whose position and whose leading/trailing trivia are "
+                "references into a 10-character text -- every range [a, b) with 0 <= a <= b <= 10 sampled at the corners, INCLUDING the "
+                "zero-width ranges (the end-of-file token) -- turns every one of them into an owned position with the referenced text and the "
+                "same line: a reference left behind is later read against another file's text by the generator (panic / wrong content)")
+    fn = lib.fn(TOKEN_T + "::replace_referenced_tokens")
+    if not R.require(rid, "anchor", fn is not None, "", "Token::replace_referenced_tokens not found"):
         return
-    scope, todo = {}, [entry["path"]]
-    while todo:
-        p = todo.pop()
-        if p in scope or p not in lib.fns:
-            continue
-        scope[p] = lib.fns[p]
-        for c in thir.fn_refs(lib.fns[p]):
-            cal = thir.callee_of(c) or c.get("callee") or ""
-            q = lib.fn(cal)
-            if q is not None and "nodes::token::" in q["path"] and q["path"] not in scope:
-                todo.append(q["path"])
-    tests = []
+    KIND = "nodes::token::TriviaKind"
+    code = "0123456789"
+    ranges = [(0, 0), (0, 1), (3, 3), (2, 5), (9, 10), (10, 10), (0, 10)]
 
-    def owned(e):
-        if e.get("k") == "Adt" and e.get("adt") == POSITION and e.get("variant") == "LineNumber":
-            return True
-        if e.get("k") == "Call":
-            q = lib.fn(thir.callee_of(e) or "")
-            return q is not None and q["path"].endswith("Position::line_number")
-        return False
-    for p, fn in scope.items():
-        body = thir.body_of(fn)
-        if not body:
-            continue
-        for n in thir.walk(body):
-            if n.get("k") == "If" and n["cond"].get("k") in ("Let", "Logical"):
-                lets = [x for x in thir.walk(n["cond"]) if x.get("k") == "Let" and (POSITION, "LineNumberReference") in thir.pat_variants(x["pat"])]
-                for l in lets:
-                    tests.append((fn, n.get("ln"), n["cond"] is l, n["then"]))
-            elif n.get("k") == "Match" and not str(n.get("src", "")).startswith(("TryDesugar", "ForLoopDesugar")):
-                for arm in n["arms"]:
-                    if (POSITION, "LineNumberReference") in thir.pat_variants(arm["pat"]):
-                        tests.append((fn, arm.get("ln") or n.get("ln"), "guard" not in arm, arm["body"]))
-    R.require(rid, "floor:tests", len(tests) >= 1, ctx.where(entry), "%d tests for Position::LineNumberReference in %d functions" % (len(tests), len(scope)))
-    for i, (fn, ln, unguarded, body) in enumerate(tests):
-        key = "%s#%d" % (fn["path"].split("::")[-1], sum(1 for t in tests[:i] if t[0] is fn))
-        R.ob(rid, "unguarded|" + key, unguarded, ctx.where(fn, ln),
-             "the LineNumberReference test is %s" % ("unconditional" if unguarded else "guarded by an extra condition: references that fail it stay unresolved"))
-        cons = [x for x in thir.walk(body) if owned(x)]
-        ok = bool(cons) and any(not _under_branch(body, x) for x in cons)
-        R.ob(rid, "builds-owned|" + key, ok, ctx.where(fn, ln),
-             "the branch builds an owned Position::LineNumber on every path" if ok else "the branch does not build an owned position unconditionally")
-    written = set()
-    for p, fn in scope.items():
-        fa = ctx.an.fa(p)
-        for n in thir.walk(thir.body_of(fn) or {}):
-            if n.get("k") == "Assign":
-                written |= {o for o in fa.origins(n["l"]) if o[0] in (TOKEN_T, TRIVIA_T)}
-    for slot in ((TOKEN_T, "position"), (TRIVIA_T, "position")):
-        R.ob(rid, "assigned|%s.%s" % (slot[0].split("::")[-1], slot[1]), slot in written, ctx.where(entry), "%s.%s is %s" % (slot[0].split("::")[-1], slot[1], "assigned" if slot in written else "never assigned in replace_referenced_tokens"))
-    R.meta["resolve_scope"] = sorted(scope)
+    def ref(r, line):
+        return Enum(POSITION, "LineNumberReference", {"start": r[0], "end": r[1], "line_number": line})
+    bad, n = [], 0
+    for rp in ranges:
+        for rl, rt in itertools.product(ranges[:4] + [None], ranges[2:6] + [None]):
+            lead = [Struct(TRIVIA_T, {"position": ref(rl, 2), "kind": Enum(KIND, "Comment")})] if rl else []
+            trail = [Struct(TRIVIA_T, {"position": ref(rt, 4), "kind": Enum(KIND, "Whitespace")})] if rt else []
+            tok = Struct(TOKEN_T, {"position": ref(rp, 3), "leading_trivia": lead, "trailing_trivia": trail})
+            pe = peval.PEval(lib, ctx.an)
+            try:
+                pe.call_fn(fn, [tok, code])
+            except peval.OutOfFuel:
+                pass
+            n += 1
+
+            def check(pos, r, line, what):
+                if not isinstance(pos, Enum):
+                    return "%s position not established %s" % (what, pe.unknown_reasons[:1])
+                if pos.variant == "LineNumberReference":
+                    return "%s reference [%d,%d) left unresolved" % (what, r[0], r[1])
+                if pos.fields.get("content") != code[r[0]:r[1]] or pos.fields.get("line_number") != line:
+                    return "%s [%d,%d) line %d resolved to %s" % (what, r[0], r[1], line, pos)
+                return None
+            probs = [check(tok.fields.get("position"), rp, 3, "token")]
+            lt, tt = tok.fields.get("leading_trivia"), tok.fields.get("trailing_trivia")
+            if rl:
+                probs.append(check(lt[0].fields.get("position") if isinstance(lt, list) and lt else None, rl, 2, "leading trivia"))
+            if rt:
+                probs.append(check(tt[0].fields.get("position") if isinstance(tt, list) and tt else None, rt, 4, "trailing trivia"))
+            probs = [x for x in probs if x]
+            if probs:
+                bad.append(probs[0])
+    R.require(rid, "floor:cells", n >= 100, ctx.where(fn), "%d tokens evaluated" % n)
+    kinds = sorted(set(b.split(" reference")[0].split(" position")[0].split(" [")[0] for b in bad))
+    R.ob(rid, "every-reference-resolved", not bad, ctx.where(fn), "all references become owned positions" if not bad else "%d of %d tokens: %s" % (len(bad), n, bad[0]))
 
 
 def census(R, ctx):
